@@ -230,20 +230,28 @@ def val_compose(ctx: Ctx) -> RuleResult:
     r.require(amd is not None, "compose: dependency collector not found")
     calls = [n for n in iter_own_nodes(amd.node) if isinstance(n, ast.Call) and dotted(n.func) == "_raise_missing_input"]
     chains = _if_chains(amd.node)
+    # the DAG inputs that have no default: the list built from self.input_uxns
+    di = [n for n in iter_own_nodes(f.node) if isinstance(n, ast.Assign) and isinstance(n.targets[0], ast.Name)
+          and "self.input_uxns" in norm_src(n.value) and "self.results" in norm_src(n.value)]
+    di_name = di[0].targets[0].id if di else "<inputs without default>"
     ok = False
     for c in calls:
         st = next(s for s in iter_own_nodes(amd.node) if isinstance(s, ast.Expr) and s.value is c)
         ch = [norm_src(t) for t, v in chains.get(id(st), ())]
-        ok = any("not in" in x for x in ch) and any(" in dag_inputs_ids" in x for x in ch)
+        ok = any("not in" in x for x in ch) and any(x.endswith(f" in {di_name}") for x in ch)
         r.ob(ok, {"missing input raised under": ch})
     if not calls:
         r.violate("BaseDAG.compose: a needed DAG input that is not provided is not refused", amd.loc(), "ValueError expected", None)
-    di = [n for n in iter_own_nodes(f.node) if isinstance(n, ast.Assign) and dotted(n.targets[0]) == "dag_inputs_ids"]
     okdi = len(di) == 1 and "not in self.results" in norm_src(di[0].value)
     r.ob(okdi, {"inputs without default": norm_src(di[0].value) if di else None})
     # ambiguous alias
     gs = ctx.method("BaseDAG", "_get_single_xn_by_alias")
-    ifs = [i for i in _raising_ifs(gs) if norm_src(i.test) in ("len(xns) > 1", "len(xns) != 1", "len(xns) >= 2")]
+    def _many(t: ast.AST) -> bool:
+        return isinstance(t, ast.Compare) and len(t.ops) == 1 and isinstance(t.left, ast.Call) and dotted(t.left.func) == "len" \
+            and isinstance(t.comparators[0], ast.Constant) and (
+                (isinstance(t.ops[0], (ast.Gt, ast.NotEq)) and t.comparators[0].value == 1)
+                or (isinstance(t.ops[0], ast.GtE) and t.comparators[0].value == 2))
+    ifs = [i for i in _raising_ifs(gs) if _many(i.test)]
     r.ob(len(ifs) == 1, {"ambiguous alias refused": len(ifs) == 1})
     if not ifs:
         r.violate("BaseDAG._get_single_xn_by_alias: an alias naming several nodes is not refused", gs.loc(), "ValueError expected", None)
